@@ -1,23 +1,33 @@
 ---------------------------- MODULE StaticServe ----------------------------
-(* StaticFileHandler.handle over a small family of file trees with symbolic links.
-   Pure function: TLC enumerates (tree, request path) and evaluates Serve once.      *)
+(* StaticFileHandler.handle (server/handler.py) over a family of file trees with symbolic links (C02).
+   Pure function: TLC enumerates (tree, request path) in Init and evaluates Serve once (Choose -> Eval).
+
+   Skeleton (TOP is a scratch directory):
+       TOP/ root/ { a/ { f, idx=index.gmi }, g, sp="s p", L1 }     root2/ { s }      out/ { sec }
+   root is the document root, root2 a sibling whose name extends the root's name, out holds a secret.
+   Slots: L1 (an entry of root) and idx (a/index.gmi) are each absent, a regular file, or a symbolic link
+   to any directory, file, the other slot, itself, or a dangling name.
+   A request path is a sequence of segment tokens; a token may be a percent-encoded spelling.            *)
 EXTENDS Naturals, Sequences, FiniteSets, TLC
-CONSTANTS MaxSegs,            \* request paths have at most this many segments
-          DevIndexNotRechecked \* current code: index file found inside a safe directory is read without re-checking
-\* ---- the fixed skeleton -----------------------------------------------------------
-\*   TOP/ root/ { a/ { f, idx }, g, L1 }   root2/ { s }   out/ { sec }
+CONSTANTS MaxSegs,             \* request paths have at most this many segments
+          SegAlphabet,         \* tokens a request segment is drawn from
+          DevIndexNotRechecked,\* deviation: index file found inside a safe directory is served without re-check
+          DevNoPctDecode       \* deviation: the request path is not percent-decoded
 Dirs  == {"TOP", "root", "a", "root2", "out"}
-Files == {"f", "g", "s", "sec"}
-Slots == {"L1", "idx"}                 \* L1 is a link slot in root; idx is a/index.gmi
+Files == {"f", "g", "sp", "s", "sec"}
+Slots == {"L1", "idx"}
 Nodes == Dirs \cup Files \cup Slots
 Parent == [n \in Nodes |-> CASE n \in {"root", "root2", "out", "TOP"} -> "TOP"
-                             [] n \in {"a", "g", "L1"} -> "root" [] n \in {"f", "idx"} -> "a"
+                             [] n \in {"a", "g", "sp", "L1"} -> "root" [] n \in {"f", "idx"} -> "a"
                              [] n = "s" -> "root2" [] n = "sec" -> "out"]
-Name == [n \in Nodes |-> IF n = "idx" THEN "index.gmi" ELSE n]
+Name == [n \in Nodes |-> CASE n = "idx" -> "index.gmi" [] n = "sp" -> "s p" [] OTHER -> n]
 Targets == (Dirs \ {"TOP"}) \cup Files \cup Slots \cup {"dangling"}
-\* what a slot is in a given tree: absent, a regular file, or a link to a target
 SlotKinds == {[k |-> "absent", to |-> "-"], [k |-> "file", to |-> "-"]} \cup [k : {"link"}, to : Targets]
-SegAlphabet == {"", ".", "..", "a", "f", "g", "L1", "index.gmi", "root2", "x"}
+\* percent-decoding of a token: a sequence of decoded segments (an encoded slash separates)
+Dec(t) == CASE t = "%2e%2e" -> <<"..">> [] t = "%2E" -> <<".">> [] t = "%66" -> <<"f">>
+            [] t = "s%20p" -> <<"s p">> [] t = "a%2ff" -> <<"a", "f">> [] t = "..%2f" -> <<"..", "">>
+            [] OTHER -> <<t>>
+Raw(t) == <<t>>
 Paths == UNION { [1..n -> SegAlphabet] : n \in 0..MaxSegs }
 
 VARIABLES slot, listing, path, trailing, out
@@ -28,16 +38,27 @@ IsLink(n) == n \in Slots /\ slot[n].k = "link"
 \* follow links from node n; result is a node, "dangling" or "loop"
 RECURSIVE Follow(_, _)
 Follow(n, hops) ==
-  IF n = "dangling" THEN "dangling"
+  IF n = "dangling" \/ (n \in Slots /\ slot[n].k = "absent") THEN "dangling"
   ELSE IF ~IsLink(n) THEN n
   ELSE IF hops > 2 THEN "loop"
   ELSE Follow(slot[n].to, hops + 1)
+\* the same, as a location: a link whose target does not exist resolves to "one missing name below the target's parent"
+RECURSIVE FollowLoc(_, _)
+FollowLoc(n, hops) ==
+  IF n = "dangling" THEN [at |-> "TOP", ghost |-> 1]
+  ELSE IF n \in Slots /\ slot[n].k = "absent" THEN [at |-> Parent[n], ghost |-> 1]
+  ELSE IF ~IsLink(n) THEN [at |-> n, ghost |-> 0]
+  ELSE IF hops > 2 THEN [at |-> "loop", ghost |-> 0]
+  ELSE FollowLoc(slot[n].to, hops + 1)
 Child(d, name) == LET c == {n \in Nodes : Parent[n] = d /\ n # "TOP" /\ Name[n] = name /\ Exists(n)} IN
                   IF c = {} THEN "none" ELSE CHOOSE n \in c : TRUE
 IsDirN(n) == n \in Dirs
 IsFileN(n) == n \in Files \/ (n \in Slots /\ slot[n].k = "file")
 RECURSIVE InsideRoot(_)
-InsideRoot(n) == IF n = "root" THEN TRUE ELSE IF n \in {"TOP", "dangling", "loop", "none"} THEN FALSE ELSE InsideRoot(Parent[n])
+InsideRoot(n) == IF n = "root" THEN TRUE ELSE IF n \notin Nodes \/ n = "TOP" THEN FALSE ELSE InsideRoot(Parent[n])
+
+RECURSIVE Flat(_)
+Flat(p) == IF p = <<>> THEN <<>> ELSE (IF DevNoPctDecode THEN Raw(Head(p)) ELSE Dec(Head(p))) \o Flat(Tail(p))
 
 \* os.path.realpath(strict=False): location = [at: real node, ghost: number of non-existing components below it]
 RECURSIVE Resolve(_, _)
@@ -51,16 +72,18 @@ Resolve(loc, segs) ==
        ELSE IF loc.ghost > 0 \/ ~IsDirN(loc.at) THEN Resolve([loc EXCEPT !.ghost = @ + 1], rest)   \* below something that is not a directory
        ELSE LET c == Child(loc.at, s) IN
             IF c = "none" THEN Resolve([loc EXCEPT !.ghost = 1], rest)
-            ELSE LET t == Follow(c, 0) IN
-                 IF t = "loop" THEN [at |-> "loop", ghost |-> 0]
-                 ELSE IF t = "dangling" THEN Resolve([at |-> "TOP", ghost |-> 1], rest)     \* a missing name directly under TOP
-                 ELSE Resolve([at |-> t, ghost |-> 0], rest)
+            ELSE LET t == FollowLoc(c, 0) IN
+                 IF t.at = "loop" THEN [at |-> "loop", ghost |-> 0]
+                 ELSE Resolve(t, rest)
+
+\* does directory d contain an entry whose stat() fails (dangling or looping link)?  -> listing may fail
+BadEntry(d) == \E n \in Slots : Parent[n] = d /\ IsLink(n) /\ Follow(n, 0) \in {"dangling", "loop"}
 
 \* ---- the handler -------------------------------------------------------------------
-Resp(st, n, what) == [st |-> st, node |-> n, what |-> what]
+Resp(st, n, what) == [st |-> st, node |-> n, what |-> what, mayfail |-> FALSE]
 Serve ==
-  LET loc == Resolve([at |-> "root", ghost |-> 0], path) IN
-  IF loc.at = "loop" THEN Resp(40, "none", "error")                       \* resolve() raises RuntimeError
+  LET loc == Resolve([at |-> "root", ghost |-> 0], Flat(path)) IN
+  IF loc.at = "loop" THEN Resp(40, "none", "error")                       \* resolve() raises / symlink loop
   ELSE IF ~InsideRoot(loc.at) THEN Resp(51, "none", "none")               \* _is_safe_path
   ELSE IF loc.ghost > 0 THEN Resp(51, "none", "none")                     \* does not exist
   ELSE IF IsDirN(loc.at) THEN
@@ -69,7 +92,7 @@ Serve ==
        IF idx # "none" /\ tgt \notin {"dangling", "loop"} /\ IsFileN(tgt) THEN
             IF DevIndexNotRechecked \/ InsideRoot(tgt) THEN Resp(20, tgt, "file")
             ELSE Resp(51, "none", "none")
-       ELSE IF listing THEN Resp(20, loc.at, "listing") ELSE Resp(51, "none", "none")
+       ELSE IF listing THEN [Resp(20, loc.at, "listing") EXCEPT !.mayfail = BadEntry(loc.at)] ELSE Resp(51, "none", "none")
   ELSE IF IsFileN(loc.at) THEN Resp(20, loc.at, "file")
   ELSE Resp(51, "none", "none")
 
@@ -79,9 +102,14 @@ Eval == out.what = "pending" /\ out' = Serve /\ UNCHANGED <<slot, listing, path,
 Next == Eval
 Spec == Init /\ [][Next]_vars
 \* ---- properties (C02) ----------------------------------------------------------------
+\* success carries a file / a listing of a directory located inside the document root
 Safe == out.st \in 20..29 => InsideRoot(out.node)
-\* every regular file really located inside the root is served when asked for by its own path
-OwnPath(n) == IF n = "root" THEN <<>> ELSE Append(IF Parent[n] = "root" THEN <<>> ELSE <<Name[Parent[n]]>>, Name[n])
-Reachable == \A n \in Nodes : (IsFileN(n) /\ Exists(n) /\ InsideRoot(n) /\ path = OwnPath(n) /\ out.what # "pending")
+\* every regular file really located inside the root is served when asked for by its own path,
+\* written literally or percent-encoded
+Lit(n) == Name[n]
+Enc(n) == CASE n = "sp" -> "s%20p" [] n = "f" -> "%66" [] OTHER -> Name[n]
+OwnPaths(n) == LET dir == IF Parent[n] = "root" THEN <<>> ELSE <<Name[Parent[n]]>> IN
+               { Append(dir, Lit(n)), Append(dir, Enc(n)) }
+Reachable == \A n \in Nodes : (IsFileN(n) /\ Exists(n) /\ InsideRoot(n) /\ path \in OwnPaths(n) /\ ~trailing /\ out.what # "pending")
                  => (out.st = 20 /\ out.node = n)
 =============================================================================
